@@ -24,7 +24,7 @@ def run(ctx):
         k = 2 if rnd.random() < 0.7 else 3
         extra.append("<<" + ",".join(str(rnd.randrange(1 << 20)) for _ in range(k)) + ">>")
     path, _ = ctx.tlc_gen("wire", "ReqFramingGen", consts={"SECONDS": seconds, "EXTRA": "<<" + ",".join(extra) + ">>"},
-                          workers=8, timeout=1500)
+                          workers=4, timeout=1800)
     if not path:
         raise Infra("ReqFramingGen wrote no vectors")
     recs = ctx.go_test(".", ["c01_"], "^TestVerifC01", infile=path, timeout=1500)
